@@ -51,7 +51,11 @@ pub mod tokio_net {
         { unimplemented!() }
     }
 }
-pub mod tokio { pub mod net { pub use super::super::tokio_net::TcpStream; } }
+pub mod tokio { pub mod net { pub use super::super::tokio_net::TcpStream; }
+    // time::timeout(d, fut): after async erasure the awaited operation has run to completion (its result is x) by the time the
+    // call is made; the timer may still win, in which case that result is dropped (Err) - an over-approximation of both outcomes
+    pub mod time { use vstd::prelude::*; pub struct Elapsed;
+        #[verifier::external_body] pub fn timeout<D, T>(d: D, x: T) -> (r: std::result::Result<T, Elapsed>) ensures r is Ok ==> r->Ok_0 == x { unimplemented!() } } }
 
 pub assume_specification<T: PartialEq> [<[T]>::contains] (s: &[T], x: &T) -> (r: bool)
     ensures r == s@.contains(*x);
